@@ -63,6 +63,8 @@ def _build(case):
         g = []
         for k, b in enumerate(order):
             spread = 0.012 if case['timing'] == 'dense' else 0.018
+            if case['timing'] == 'boundary':
+                spread = 0.020      # the last sweep of a pose arrives exactly one matching window after the first
             ts = t + (spread * k / max(1, len(order) - 1) if len(order) > 1 else 0.0)
             vecs = LighthouseBsVectors()
             for (h, v, x) in room.angles(b, i):
@@ -164,6 +166,20 @@ def run_room(case):
         usable = [g for g in usable if round(g[0], 6) in kept]
         if not usable:
             return out
+    # ---- the initial estimate is expressed in the frame of the FIRST sample: positively identify an estimate that is the
+    # truth seen from another sample (all stations within 0.2 rad / 0.2 m of it) while it is far from the truth seen from the first
+    def _frame_fit(k):
+        tbk, _ = room.relative(k)
+        return max((max(rot_angle(init.bs_poses[b].rot_matrix, tbk[b][0]), float(np.linalg.norm(init.bs_poses[b].translation - tbk[b][1]))) for b in seen
+                    if b in init.bs_poses), default=9.0)
+    if sorted(init.bs_poses) == seen:
+        fit0 = _frame_fit(usable[0][2])
+        if fit0 > 0.4:
+            for (t_k, g_k, k) in usable[1:]:
+                if _frame_fit(k) < 0.2:
+                    out.fail('estimate:frame-of-another-sample', '%s: the initial estimate matches the truth seen from sample %d (within %.3f), not from the first usable '
+                             'sample %d (off by %.3f)' % (desc, k, _frame_fit(k), usable[0][2], fit0))
+                    break
     try:
         sol = LighthouseGeometrySolver.solve(init, cleaned, sensors)
     except Exception as e:  # noqa
@@ -295,7 +311,7 @@ def room_case(draw):
         ids = list(range(n))
     ncf = draw(st.one_of(st.integers(3, 12), st.integers(3, 40)))
     vis = draw(st.sampled_from(['full', 'full', 'random', 'random', 'chain', 'ring', 'split'])) if n >= 3 else draw(st.sampled_from(['full', 'full', 'random']))
-    return {'seed': draw(st.integers(0, 2 ** 31 - 1)), 'ids': ids, 'ncf': ncf, 'visibility': vis, 'timing': draw(st.sampled_from(['sparse', 'sparse', 'dense'])),
+    return {'seed': draw(st.integers(0, 2 ** 31 - 1)), 'ids': ids, 'ncf': ncf, 'visibility': vis, 'timing': draw(st.sampled_from(['sparse', 'sparse', 'dense', 'boundary'])),
             'bs_order': draw(st.sampled_from(['sorted', 'reverse'])), 'max_tilt': draw(st.sampled_from([10.0, 10.0, 3.0, 0.0]))}
 
 
